@@ -20,13 +20,23 @@ RULE = ('a case = a universe (3-5 real AbstractUnit subclasses with fixed and va
         'whole state (each unit\'s ins/outs as stream numbers / placeholder identities, each slot object\'s sink and source, each '
         'stream\'s sink and source) are folded, on both sides, into a 63-bit rolling checksum; the checksums and the final state in '
         'full are compared with the model. non-trivial = at least one operation changed the observed state; distinct = distinct case hash')
+ORACLE = ('after every operation of a history that is still inside the preconditions: (1) every object listed in a unit\'s ins/outs '
+          'has that unit as sink/source, no object twice in a list, fixed lists have their size, placeholders are empty missing streams; '
+          '(2) every stream of the universe AND every placeholder reachable through some port list is listed wherever its sink/source '
+          'points; (3) for item assignment, replace, pop, remove, disconnect_sink/source, insert, append: by object identity, the '
+          'addressed port (python index arithmetic included) holds the assigned object / a new placeholder, a fixed-size list keeps '
+          'every other port, a variable-size pop removes exactly that port, and in every other list nothing changes except that the '
+          'port a moved stream left holds a new placeholder')
 ASSUMPTIONS = ['docking warnings (RuntimeWarning text) are not part of the model; units and streams are created without IDs so none is emitted',
                'auxiliary-unit ownership in Connection.reconnect, the discard= arguments, and constructor lists that contain the same '
                'stream twice, a placeholder object or an oversize outs list are outside the modelled domain (the generator never produces them)',
                'the theorems quantify over well-formed operations (wfb: units and streams mentioned exist) used within the property\'s '
                'preconditions (preb); for compound operations (unit.insert, disconnect(join_ends), take_place_of, replace_with, '
                'reconnect) the precondition is that every item/slice assignment they perform meets the assignment precondition when it is performed',
-               'the model of pop is the source with pending_fixes/C18_1_pop_undock.diff applied (step); step_found is the source as found']
+               'the model of pop is the source with the pop fix applied (step); step_found is the source as found',
+               'the reverse direction of the sink/source clause for PLACEHOLDERS (reachable placeholder points at u => listed at u) is stated '
+               '(C18_placeholder_backpointer_statement) and checked by the oracle and by the per-step comparison of every listed object\'s '
+               'sink and source, but proved only locally (C18_replaced_object_is_undocked, C18_popped_object_is_undocked, C18_cleared_objects_are_undocked)']
 TRUSTED = ['model coq/C18/Model.v is hand-written from thermosteam/network.py (StreamSequence, AbstractInlets/Outlets, '
            'AbstractStream/AbstractMissingStream disconnect, pipes, Connection.reconnect, AbstractUnit rewiring methods); tie = '
            'correspondence check after every operation of every history',
@@ -367,7 +377,7 @@ def apply_op(U, op):
 def setup_ops(case):
     return [['new', u[0], u[1], u[2], u[3], ['none'], ['none']] for u in case['units']]
 
-def exec_history(case, ops, per_step=None):
+def exec_history(case, ops, per_step=None, pre_step=None):
     """run setup + ops on fresh real objects; returns the per-operation records"""
     U = Universe(case['ns'])
     recs = []
@@ -375,12 +385,14 @@ def exec_history(case, ops, per_step=None):
         warnings.simplefilter('ignore')
         for op in setup_ops(case) + list(ops):
             pre, exact = precondition(U, op)
+            before = pre_step(U, op) if pre_step is not None else None
             err = None
             try:
                 apply_op(U, op)
             except Exception as ex:
                 err = ERR.get(type(ex).__name__, 'EDim:' + type(ex).__name__)
             rec = {'err': err, 'pre': pre, 'exact': exact, 'obs': observe(U)}
+            if before is not None: rec['before'] = before
             recs.append(rec)
             if per_step is not None:
                 stop = per_step(U, op, rec)
@@ -556,15 +568,99 @@ def invariant(U):
                 if not is_real(x):
                     if not isinstance(x, nw.AbstractMissingStream) or bool(x):
                         return f'{name}[{j}]: placeholder is not an empty missing stream'
-    for k, s in enumerate(U.streams):
+    # every stream of the universe, and every placeholder that can be reached through some port list
+    # (placeholders are shared between units by u1-u2, take_place_of, item assignment), is listed where it points
+    objs = [(f'stream {k}', s) for k, s in enumerate(U.streams)]
+    seen = set()
+    for k, unit in enumerate(U.units):
+        for nm, L in (('ins', unit.ins), ('outs', unit.outs)):
+            for j, x in enumerate(L):
+                if not is_real(x) and id(x) not in seen:
+                    seen.add(id(x)); objs.append((f'placeholder at unit {k}.{nm}[{j}]', x))
+    for name, s in objs:
         for sd in ('i', 'o'):
             p = ptr(s, sd)
             if p is not None:
                 pk = U.uid(p)
                 L = None if pk == 999 else U.ports(sd, pk)
                 if L is None or idx(s, list(L)) is None:
-                    return (f'stream {k}: {"sink" if sd == "i" else "source"} is unit {pk} but the stream is not among its '
+                    return (f'{name}: {"sink" if sd == "i" else "source"} is unit {pk} but it is not among its '
                             f'{"inlets" if sd == "i" else "outlets"}')
+    return None
+
+# ---- positional clauses: the vacated port (and only it) receives the placeholder; no other port changes
+class NEWPH: pass
+
+def snapshot(U, op):
+    snap = {(k, sd): list(U.ports(sd, k)) for k in range(len(U.units)) for sd in 'io'}
+    n = op[0]
+    args = {}
+    if n in ('set', 'insert'): args['x'] = U.arg(op[4])
+    elif n in ('append', 'remove'): args['x'] = U.arg(op[3])
+    elif n == 'replace': args['a'] = U.arg(op[3]); args['x'] = U.arg(op[4])
+    elif n == 'disc': args['x'] = U.arg(op[2])
+    return {'lists': snap, 'args': args, 'nunits': len(U.units)}
+
+def positional(U, op, before):
+    """expected contents of every port list after a successful single-port operation, by object identity"""
+    n = op[0]
+    if n not in ('set', 'replace', 'pop', 'remove', 'disc', 'insert', 'append'): return None
+    lists, args = before['lists'], before['args']
+    if n == 'disc':
+        x = args['x']; sd = op[1]
+        unit = None
+        for (k, s_), l in lists.items():
+            if s_ == sd and idx(x, l) is not None: unit = k
+        if unit is None: return None
+        T = (unit, sd)
+    else:
+        T = (op[2], op[1])
+    old = lists[T]; fixed, size = fixed_of(U, T[1], T[0])
+    X = args.get('x')
+    moved = X if is_obj(X) else None
+    if n == 'set':
+        k = norm_index(op[3], len(old)); new_obj = X if is_obj(X) else NEWPH
+        exp = old + [new_obj] if k is None else old[:k] + [new_obj] + old[k + 1:]
+    elif n == 'replace':
+        k = idx(args['a'], old)
+        if k is None: return None
+        exp = old[:k] + [X if is_obj(X) else NEWPH] + old[k + 1:]
+    elif n == 'pop':
+        k = norm_index(op[3], len(old)); moved = None
+        if k is None: return None
+        exp = old[:k] + [NEWPH] + old[k + 1:] if fixed else old[:k] + old[k + 1:]
+    elif n in ('remove', 'disc'):
+        k = idx(X, old); moved = None
+        if k is None or not fixed: return None      # the property speaks about fixed-size lists only
+        exp = old[:k] + [NEWPH] + old[k + 1:]
+    elif n == 'insert':
+        c = slice(op[3], None).indices(len(old))[0]
+        exp = old[:c] + [X] + old[c:]
+    else:
+        exp = old + [X]
+    oldids = {id(y) for l in lists.values() for y in l}
+    def same(name, j, e, g, k_hint=None):
+        if e is NEWPH:
+            if is_real(g) or id(g) in oldids:
+                what = f'stream {U.sid(g)}' if is_real(g) else 'an existing placeholder'
+                return f'{name}[{j}]: vacated port holds {what} instead of a new placeholder'
+        elif g is not e:
+            return f'{name}[{j}]: port changed although the operation did not address it'
+        return None
+    for (k, sd), l in lists.items():
+        name = f'unit {k}.{"ins" if sd == "i" else "outs"}'
+        now = list(U.ports(sd, k))
+        if (k, sd) == T:
+            if len(now) != len(exp): return f'{name}: has {len(now)} ports, expected {len(exp)}'
+            for j, (e, g) in enumerate(zip(exp, now)):
+                m = same(name, j, e, g)
+                if m: return m
+        else:
+            if len(now) != len(l): return f'{name}: has {len(now)} ports, expected {len(l)} (the operation addressed another list)'
+            for j, (e, g) in enumerate(zip(l, now)):
+                if sd == T[1] and moved is not None and e is moved: e = NEWPH
+                m = same(name, j, e, g)
+                if m: return m
     return None
 
 def oracle(case):
@@ -576,10 +672,12 @@ def oracle(case):
             state['inpre'] = state['inpre'] and rec['pre']
             if not state['inpre']: return 'left-preconditions'
             msg = invariant(U)
+            if not msg and rec['err'] is None:
+                msg = positional(U, op, rec['before'])
             if msg:
                 return f'{op[0]}: after operation #{state["n"] - n0} {op} of history {h}: {msg}'
             return None
-        _, stop = exec_history(case, ops, per_step)
+        _, stop = exec_history(case, ops, per_step, snapshot)
         if stop and stop != 'left-preconditions':
             return stop
     return None
@@ -604,7 +702,8 @@ def shrink(case):
 
 def finding_key(case, msg):
     op = msg.split(':')[0]
-    kind = 'dangling' if 'is not among its' in msg else ('listed' if 'is listed but' in msg else 'other')
+    kind = ('dangling' if 'is not among its' in msg else 'listed' if 'is listed but' in msg
+            else 'position' if ('vacated port' in msg or 'port changed' in msg or 'ports, expected' in msg) else 'other')
     return f'C18:{op}:{kind}'
 
 # ------------------------------------------------------------------ generators
